@@ -30,13 +30,14 @@
 (* successors) so that the design-level Next and the trace acceptor of     *)
 (* TraceMalformed are the same relation.                                   *)
 (***************************************************************************)
-EXTENDS Naturals, Sequences, FiniteSets, TLC
+EXTENDS Naturals, Sequences, FiniteSets, TLC, CfgSchema
 
 CONSTANTS MaxPrefix,      \* well-formed entries before the malformed item (0..MaxPrefix)
           MaxTrail,       \* well-formed entries after it (0..MaxTrail)
           Variant,        \* "ok" | negative controls: "swallow", "loseprefix", "spin"
           ReqTokens,      \* step tokens of enumerated scenario request lists (subset of AllReqTokens)
-          MaxReqLen       \* request lists of 0..MaxReqLen steps
+          MaxReqLen,      \* request lists of 0..MaxReqLen steps
+          CfgTreeSyn      \* syntaxes in which the configuration-tree cases (CfgSchema) are enumerated
 
 VARIABLES cs,             \* the case (constant during a behaviour)
           st              \* reader state
@@ -215,7 +216,7 @@ DescTable == [
 DescClasses == DOMAIN DescTable
 
 \* a config value has a single stage
-LastStage(t) == IF t = "config" THEN 1 ELSE IF t = "pool" THEN 2 ELSE 4
+LastStage(t) == IF t = "config" THEN 1 ELSE IF t = "pool" THEN 2 ELSE IF t = "cfg" THEN 3 ELSE 4
 
 -----------------------------------------------------------------------------
 (* The case space *)
@@ -331,8 +332,16 @@ PoolCases == { [kind |-> "desc", format |-> "pool", mode |-> "-", np |-> 0, cls 
 \* the name the rejection must carry ("-": none)
 NameOf(c) == IF c.format = "pool" THEN PoolTable[c.cls].nm ELSE "-"
 
+\* (e) configuration files as text (CfgSchema.tla): target "cfg", stages parse -> construct -> run
+CfgCases ==
+    { [kind |-> "desc", format |-> "cfg", mode |-> "-", np |-> 0, cls |-> "tree", nt |-> 0, arg |-> a] :
+        a \in { x \in CfgTreeArgs : x[1] \in CfgTreeSyn } }
+    \cup
+    { [kind |-> "desc", format |-> "cfg", mode |-> "-", np |-> 0, cls |-> "text", nt |-> 0, arg |-> a] : a \in CfgTextArgs }
+CfgI(c) == CfgInfo(c.cls, c.arg)
+
 ParamCases ==
-    PoolCases \cup
+    PoolCases \cup CfgCases \cup
     { [kind |-> "desc", format |-> t, mode |-> "-", np |-> 0, cls |-> "tfunc", nt |-> 0, arg |-> a] :
         t \in ScenarioTargets, a \in FuncArgs }
     \cup
@@ -345,6 +354,7 @@ ParamCases ==
 \* [t, at, v] of any description case
 DescInfo(c) ==
     CASE c.format = "pool" -> [t |-> {"pool"}, at |-> PoolTable[c.cls].at, v |-> PoolTable[c.cls].v]
+      [] c.format = "cfg"  -> [t |-> {"cfg"}, at |-> CfgI(c).at, v |-> IF CfgI(c).v = "lax" THEN "either" ELSE CfgI(c).v]
       [] c.cls = "reqlist" -> LET v == ReqListVerdict(c.arg) IN
                               [t |-> ScenarioTargets, at |-> IF v = "deliver" THEN 0 ELSE 1, v |-> v]
       [] c.cls = "index"   -> LET v == IndexVerdict(c.arg) IN
@@ -362,6 +372,7 @@ IsCase(c) ==
            /\ AmmoCaseOK(c)
        ELSE /\ c.kind = "desc" /\ c.mode = "-" /\ c.np = 0 /\ c.nt = 0
             /\ CASE c.format = "pool" -> c.cls \in PoolClasses /\ c.arg = <<>>
+                 [] c.format = "cfg"  -> IsCfgCase(c.cls, c.arg) /\ (c.cls = "tree" => c.arg[1] \in CfgSyntaxes)
                  [] c.cls = "reqlist" -> /\ c.format \in ScenarioTargets
                                          /\ Len(c.arg) <= MaxReqLen
                                          /\ \A i \in 1..Len(c.arg) : c.arg[i] \in ReqTokens
@@ -466,10 +477,33 @@ DescSucc(c, s) ==
         (IF d.v \in {"deliver", "either"} \/ Variant = "swallow"
             THEN { [e |-> Ev("Stage", Stages[s.pos]), s |-> [s EXCEPT !.pos = @ + 1]] } ELSE {})
 
+\* configuration text (CfgSchema): parse -> construct -> run.  A `reject` case ends at the stage where the
+\* defect is met; a `lax` case may end at that stage or at any later one, or be accepted (also without having
+\* shot: an empty pool list is a configuration with nothing to do); a rejection inside the second pool names it
+\* the way that stage names pools ("pools[1]" while decoding, "pool-1" once the engine runs it).
+CfgSucc(c, s) ==
+    LET i    == CfgI(c)
+        nm   == CfgNameOf(i, s.pos)
+        pass == [e |-> Ev("Stage", CfgStages[s.pos]), s |-> [s EXCEPT !.pos = @ + 1]]
+        end  == [e |-> Ev("End", "rejected"), s |-> [s EXCEPT !.res = "rejected"]]
+        name(x) == [e |-> Ev("Named", x), s |-> [s EXCEPT !.loaded = "named"]]
+        mayReject == Variant # "swallow" /\ ((i.v = "reject" /\ s.pos = i.at) \/ (i.v = "lax" /\ s.pos >= i.at))
+        mayPass   == i.v \in {"deliver", "lax"} \/ s.pos # i.at \/ Variant = "swallow"
+    IN
+    IF s.pos > 3 THEN { [e |-> Ev("End", "accepted"), s |-> [s EXCEPT !.res = "accepted"]] }
+    ELSE (IF mayReject
+            THEN (IF nm # "-" /\ s.loaded = "no" /\ Variant # "noname" THEN { name(nm) }
+                  ELSE IF i.opt /\ s.loaded = "no" /\ s.pos = 2 THEN { name("pools[1]"), end }
+                  ELSE { end })
+            ELSE {})
+         \cup (IF mayPass /\ s.loaded = "no" THEN { pass } ELSE {})
+         \cup (IF i.v = "lax" /\ s.pos = 3 /\ s.loaded = "no"
+                 THEN { [e |-> Ev("End", "accepted"), s |-> [s EXCEPT !.res = "accepted"]] } ELSE {})
+
 Succ(c, s) ==
     IF s.res # "run" THEN {}
     ELSE { [e |-> x.e, s |-> [x.s EXCEPT !.n = @ + 1]] :
-             x \in (IF c.kind = "ammo" THEN AmmoSucc(c, s) ELSE DescSucc(c, s)) }
+             x \in (IF c.kind = "ammo" THEN AmmoSucc(c, s) ELSE IF c.format = "cfg" THEN CfgSucc(c, s) ELSE DescSucc(c, s)) }
 
 \* events the implementation cannot show are silent for the acceptor
 Silent(e) == e.ev \in {"Load", "Skip", "Rewind"}
@@ -524,7 +558,8 @@ NoSilentAcceptDesc ==
 
 \* a rejected pool configuration has named the pool it rejects
 RejectedPoolIsNamed ==
-    (st.res = "rejected" /\ cs.kind = "desc" /\ NameOf(cs) # "-") => st.loaded = "named"
+    /\ (st.res = "rejected" /\ cs.kind = "desc" /\ NameOf(cs) # "-") => st.loaded = "named"
+    /\ (st.res = "rejected" /\ cs.kind = "desc" /\ cs.format = "cfg" /\ CfgNameOf(CfgI(cs), st.pos) # "-") => st.loaded = "named"
 
 \* a well-formed input is never rejected
 NoFalseReject ==
